@@ -210,6 +210,43 @@ def _replay_lev(shape, shape2, mode):
     return replay
 
 
+# ---- (b') TCR tables end to end with the default metric
+def _body_tcr(kind):
+    def body():
+        from pyrepseq import distance
+        from models import np_model, pd_model
+        from vlib import sym, symops as so
+        a = [sym.sym_str(f"a{i}", 1, lo=1) for i in range(3)]
+        b = [sym.sym_str(f"b{i}", 1, lo=1) for i in range(3)]
+        if kind == "beta":
+            data, d = pd_model.DataFrame({"CDR3B": list(b), "TRBV": ["x", "y", "z"]}, index=[4, 2, 9]), None
+        elif kind == "paired":
+            data = pd_model.DataFrame({"CDR3A": list(a), "CDR3B": list(b)}, index=[4, 2, 9])
+        else:
+            data = (list(a), list(b))
+        got = distance.pcDelta(data, bins=np_model.arange(0, 4), normalize=False)
+        pairs = [(i, j) for i in range(3) for j in range(i + 1, 3)]
+        dist = [hc.lev_term(b[i], b[j]) if kind == "beta" else so.add(hc.lev_term(a[i], a[j]), hc.lev_term(b[i], b[j])) for i, j in pairs]
+        conds = [so.eq(got[k], so.count_true([so.b_or(so.eq(d_, k), so.eq(d_, k + 1)) if k == 2 else so.eq(d_, k) for d_ in dist])) for k in range(3)]
+        return so.b_and(len(got) == 3, *conds), (lambda: f"pcDelta({kind} table) = {_realize(got.tolist())}")
+    return body
+
+
+def _replay_tcr(kind):
+    def replay(inputs):
+        import numpy as np
+        import pandas as pd
+        from pyrepseq import distance
+        a, b = [inputs[f"a{i}"] for i in range(3)], [inputs[f"b{i}"] for i in range(3)]
+        data = pd.DataFrame({"CDR3B": b, "TRBV": ["x", "y", "z"]}, index=[4, 2, 9]) if kind == "beta" else \
+            pd.DataFrame({"CDR3A": a, "CDR3B": b}, index=[4, 2, 9]) if kind == "paired" else (a, b)
+        got = distance.pcDelta(data, bins=np.arange(0, 4), normalize=False)
+        d = [hc.lev(b[i], b[j]) + (0 if kind == "beta" else hc.lev(a[i], a[j])) for i in range(3) for j in range(i + 1, 3)]
+        want, _ = np.histogram(d, bins=np.arange(0, 4))
+        return list(got) == list(want), f"pcDelta({kind}: alpha={a}, beta={b}) = {list(got)}, expected {list(want)}"
+    return replay
+
+
 # ---- (c) default metric
 def _body_default_metric(kind):
     def body():
@@ -388,6 +425,9 @@ def conditions(tier):
         cid = "C05/levenshtein/" + ",".join(map(str, shape)) + ("/vs/" + ",".join(map(str, shape2)) if shape2 else "") + f"/{mode}"
         out.append(Condition(cid, _body_lev(shape, shape2, mode), _replay_lev(shape, shape2, mode), budget=300 if not T else 2400, models=M,
                              bounds=f"real Levenshtein metric on free strings {shape}" + (f" vs {shape2}" if shape2 else "") + f", {mode}"))
+    for kind in ("beta", "paired", "tuple"):
+        out.append(Condition(f"C05/tcr_table/{kind}", _body_tcr(kind), _replay_tcr(kind), budget=600, models=M,
+                             bounds=f"pcDelta on a 3-row TCR input ({kind}) with the default metric, free one-letter CDR3s"))
     for kind in ("table", "list", "tuple3", "series", "none"):
         out.append(Condition(f"C05/default_metric/{kind}", _body_default_metric(kind), _replay_default_metric(kind), budget=60, models=M,
                              bounds=f"default metric for input kind {kind}"))
